@@ -32,6 +32,7 @@ PROPS = {
                          "transport", "real loopback sockets and real time are observed only by the replay/stand-in, not proved"],
     },
     "C09": {
+        "standins": ["usm"],
         "units": [wire_v3.units_rx], "level": "other", "design_ref": "7.9",
         "technique": VC + "V3MPM.decode and the USM incoming path executed on an ARBITRARY well-formed SNMPv3 message (all leaves "
                      "symbolic: flags, user, engine, digest, payload plain or encrypted); postcondition: a normal return implies the "
@@ -59,6 +60,7 @@ PROPS = {
         "trusted_base": ["RFC 3414 section 3.2 (7b) acceptance window as the agent model"],
     },
     "C05": {
+        "standins": ["wire-emit"],
         "units": [wire_community.units_c05, wire_v3.units_emit], "level": "other", "design_ref": "7.5",
         "technique": VC + "the real chain operation -> _send -> plug-in loaders -> message processing -> security model -> "
                      "PDU framing executed symbolically; the bytes handed to the sender are compared with an RFC-transcribed "
@@ -67,6 +69,7 @@ PROPS = {
                          "importlib/pkgutil: a plug-in namespace yields the modules under /repo/src/<namespace>"],
     },
     "C06": {
+        "standins": ["wire-values"],
         "units": [wire_community.units_rx, wire_v3.units_rx, types_c17.units_table_c06], "level": "other", "design_ref": "7.6",
         "technique": VC + "V1MPM/V2CMPM.decode and PDU.decode_raw executed on a well-formed RFC message with symbolic leaves "
                      "and arbitrary definite length forms; registration constants as a contract on data",
@@ -128,6 +131,7 @@ PROPS = {
                          "x690 ObjectIdentifier order/containment contract (assumed, validated by enumeration)"],
     },
     "C01": {
+        "standins": ["walks-getnext"],
         "units": [walks.units_c01], "level": "other", "design_ref": "7.1",
         "technique": VC + "multiwalk verified with an inductive loop invariant over an uninterpreted, totally ordered OID "
                      "sort (axioms Lean-checked) against an RFC 3416 agent model; database, OIDs, iteration count unbounded; "
@@ -136,6 +140,7 @@ PROPS = {
                          "x690 ObjectIdentifier order/containment contract (assumed, validated by enumeration)"],
     },
     "C02": {
+        "standins": ["walks-bulk"],
         "units": [walks.units_c02], "level": "other", "design_ref": "7.2",
         "technique": VC + "multiwalk with the real bulk fetcher (closure, bulkget) under the same invariant and postcondition "
                      "as the GETNEXT walk; GETBULK agent model with every RFC-allowed cut; roots, repetitions and cuts enumerated",
